@@ -568,29 +568,33 @@ int main(int argc, char** argv) {
   for (int opt = 0; opt < 4; ++opt) {
     for (int pool = 0; pool < 2; ++pool) {
       for (int n = 1; n <= 2; ++n) {
-        for (int lf = 0; lf < 5; ++lf) {
-          for (int uf = 0; uf < 4; ++uf) {
-            if ((lf == kLock || lf == kTryLock) && uf == kDtor) {
-              continue;
-            }
-            for (int other = 0; other < 3; ++other) {
-              Cfg cfg;
-              cfg.batching = (opt & 2) != 0;
-              cfg.fifo = (opt & 1) != 0;
-              cfg.pool = pool != 0;
-              cfg.workers = {n};
-              CoSpec a, b;
-              a.rounds.push_back(Round{lf, uf, 0, -1});
-              // the partner: Lock + co_await Unlock / Lock + UnlockHere / GuardSticky + sticky Unlock
-              b.rounds.push_back(other == 0 ? Round{kLock, kUnlock, 0, -1}
-                                 : other == 1 ? Round{kLock, kUnlockHere, 0, -1}
-                                              : Round{kSticky, kUnlock, 0, -1});
-              cfg.cos = {a, b};
-              std::string name = std::string("k2/") + opt_names[opt] + (pool ? "/pool" : "/man") + std::to_string(n) +
-                                 "/" + kLockNames[lf] + kUnlockNames[uf] + "-" + std::to_string(other);
-              m.Scenario(name, [cfg] {
-                Run(cfg);
-              });
+        for (int hop = 0; hop < 2; ++hop) {
+          for (int lf = 0; lf < 5; ++lf) {
+            for (int uf = 0; uf < 4; ++uf) {
+              if ((lf == kLock || lf == kTryLock) && uf == kDtor) {
+                continue;
+              }
+              for (int other = 0; other < 3; ++other) {
+                Cfg cfg;
+                cfg.batching = (opt & 2) != 0;
+                cfg.fifo = (opt & 1) != 0;
+                cfg.pool = pool != 0;
+                cfg.workers = {n};
+                CoSpec a, b;
+                // with hop the first coroutine is rescheduled while it holds the lock: contention on one worker
+                a.rounds.push_back(Round{lf, uf, 0, hop ? 0 : -1});
+                // the partner: Lock + co_await Unlock / Lock + UnlockHere / GuardSticky + sticky Unlock
+                b.rounds.push_back(other == 0   ? Round{kLock, kUnlock, 0, -1}
+                                   : other == 1 ? Round{kLock, kUnlockHere, 0, -1}
+                                                : Round{kSticky, kUnlock, 0, -1});
+                cfg.cos = {a, b};
+                std::string name = std::string(hop ? "k2h/" : "k2/") + opt_names[opt] + (pool ? "/pool" : "/man") +
+                                   std::to_string(n) + "/" + kLockNames[lf] + kUnlockNames[uf] + "-" +
+                                   std::to_string(other);
+                m.Scenario(name, [cfg] {
+                  Run(cfg);
+                });
+              }
             }
           }
         }
